@@ -377,8 +377,42 @@ func (p c12) start(c *core.Ctx) {
 		}
 		c.Count("starts_with_an_importing_loader", 1)
 	}
+	// one loader fails when it is asked (the first time only - its source is not reachable yet): the start
+	// fails; every loader up to it was asked once, in contract order, nobody after it, nobody twice
+	loaderFault := ""
+	if nl > 0 && twin == nil && len(imported) == 0 && c.Rng.Intn(8) == 0 {
+		lc := loaders[c.Rng.Intn(nl)].(world.LoggedLoader).Core()
+		lc.ErrOnce, loaderFault = true, lc.Nm
+		c.Count("starts_with_a_loader_failing_on_its_first_call", 1)
+	}
 	r.Go()
 	c.Count("starts", 1)
+	if loaderFault != "" {
+		if r.Outcome() != "error" {
+			c.Fail("", fmt.Sprintf("loader %s failed when it was asked, App.Run: %s", loaderFault, r.Outcome()), failDetail(sc, r, nil))
+			return
+		}
+		var lseq []part
+		calls := map[string]int{}
+		for _, e := range r.Log.Events() {
+			if e.Kind == "load" {
+				lseq = append(lseq, ldClass[e.Who])
+				calls[e.Who]++
+			}
+		}
+		for name, k := range calls {
+			if k > 1 {
+				c.Fail("", fmt.Sprintf("loader %s was asked %d times in one start (loader %s failed on its first call)", name, k, loaderFault), failDetail(sc, r, map[string]any{"sequence": fmt.Sprint(lseq)}))
+				return
+			}
+		}
+		if v := contractViolation(lseq); v != "" {
+			c.Fail("", "loader invocation order up to the failing loader violates the contract: "+v, failDetail(sc, r, map[string]any{"sequence": fmt.Sprint(lseq)}))
+			return
+		}
+		c.Nontrivial(fmt.Sprintf("start-loaderfault:%v|%s", lseq, loaderFault))
+		return
+	}
 	if r.Outcome() != "ok" {
 		c.Fail("", "start did not succeed: "+core.Short(r.OutcomeDetail(), 300), failDetail(sc, r, nil))
 		return
